@@ -62,5 +62,18 @@ v('c20-strlen', 'C20', 'fire', W, "    return A->a[0]==B->a[0] &&", "    return 
 v('c20-string-h', 'C20', 'fire', W, '#include "lltdEndian.h"', '#include "lltdEndian.h"\n#include <string.h>', 'R20.c')
 v('c20-ifdef-linux', 'C20', 'fire', W, '#include "lltdEndian.h"', '#include "lltdEndian.h"\n#ifdef __linux__\nstatic int lltd_on_linux;\n#endif', 'R20.d')
 
+# ---- C02
+v('c02-no-memset-hello', 'C02', 'fire', B, "    lltd_port_memset(buffer, 0, mtu);\n\n    ethernet_address_t our_mac = {{0, 0, 0, 0, 0, 0}};\n    (void)lltd_port_get_mac_address(iface_ctx, &our_mac);\n\n    set_active_mapper", "    ethernet_address_t our_mac = {{0, 0, 0, 0, 0, 0}};\n    (void)lltd_port_get_mac_address(iface_ctx, &our_mac);\n\n    set_active_mapper", 'R02.5')
+v('c02-send-in-default', 'C02', 'fire', B, "                    st->mapper_gen_quick = 0;\n                    break;\n                default:\n                    break;\n            }\n            break;\n        case tos_quick_discovery:", "                    st->mapper_gen_quick = 0;\n                    break;\n                default:\n                    if (header->opcode == opcode_charge) answerHello(frame, st, iface_ctx);\n                    break;\n            }\n            break;\n        case tos_quick_discovery:", 'R02.1')
+v('c02-version2', 'C02', 'fire', W, "    lltdHeader->version = 1;\n\n    return sizeof(lltd_demultiplex_header_t);\n}\n\nsize_t setLltdHeaderEx", "    lltdHeader->version = 2;\n\n    return sizeof(lltd_demultiplex_header_t);\n}\n\nsize_t setLltdHeaderEx", 'R02.3')
+v('c02-tlv-wrong-size', 'C02', 'fire', T, "    return sizeof(*linkSpeedTL) + sizeof(wire);", "    return sizeof(*linkSpeedTL) + sizeof(wire) + 1;", 'R02.4')
+v('c02-duplicate-tlv', 'C02', 'fire', B, "    offset += setQosCharacteristicsTLV(buffer, offset);\n    offset += setIconImageTLV(buffer, offset);", "    offset += setQosCharacteristicsTLV(buffer, offset);\n    offset += setIconImageTLV(buffer, offset);\n    offset += setIconImageTLV(buffer, offset);", 'R02.4')
+v('c02-second-send', 'C02', 'fire', B, "    (void)lltd_port_send_frame(iface_ctx, buffer, offset);\n    lltd_port_free(buffer);\n}\n\n//====", "    (void)lltd_port_send_frame(iface_ctx, buffer, offset);\n    if (st->mapper_seq == 7) (void)lltd_port_send_frame(iface_ctx, buffer, offset);\n    lltd_port_free(buffer);\n}\n\n//====", 'R02.2')
+v('c02-hostname-clamp-64', 'C02', 'fire', T, "    size_t written = lltd_port_get_hostname(base + offset + sizeof(*hostnameTLV), 32);\n    if (written > 32) {\n        written = 32;\n    }", "    size_t written = lltd_port_get_hostname(base + offset + sizeof(*hostnameTLV), 64);\n    if (written > 64) {\n        written = 64;\n    }", 'R02.4')
+v('c02-no-end-marker', 'C02', 'fire', B, "    offset += setEndOfPropertyTLV(buffer, offset);\n", "    setEndOfPropertyTLV(buffer, offset);\n", 'R02.4')
+v('c02-probe-len', 'C02', 'fire', B, "    if (lltd_port_send_frame(iface_ctx, probe, packageSize) < 0) {\n        log_warning(\"sendProbeMsg: send_frame failed (%zu bytes, opcode=%u)\"", "    if (lltd_port_send_frame(iface_ctx, probe, packageSize - 2) < 0) {\n        log_warning(\"sendProbeMsg: send_frame failed (%zu bytes, opcode=%u)\"", 'R02.4')
+v('c02-uuid-uninit', 'C02', 'fire', B, "    offset += setQosCharacteristicsTLV(buffer, offset);\n    offset += setIconImageTLV(buffer, offset);", "    offset += setQosCharacteristicsTLV(buffer, offset);\n    { uint8_t junk[4]; lltd_port_memcpy(buffer + 60, junk, 4); }\n    offset += setIconImageTLV(buffer, offset);", 'R02.5', 'copies uninitialised stack bytes into the Hello')
+v('c02-benign-reorder-tlvs', 'C02', 'silent', B, "    offset += setIPv4TLV(buffer, offset, iface_ctx);\n    offset += setIPv6TLV(buffer, offset, iface_ctx);", "    offset += setIPv6TLV(buffer, offset, iface_ctx);\n    offset += setIPv4TLV(buffer, offset, iface_ctx);")
+
 json.dump(V, open(os.path.join(HERE, 'variants.json'), 'w'), indent=1)
 print(len(V), 'variants')
